@@ -429,9 +429,10 @@ func suiteURL(r *Rng, n int, thorough bool, o *Out) {
 		tags := []string{"tags"}
 		if u != nil {
 			for t := range u.Params.Fields {
-				if st := s.GetType(t); len(st.Fields()) == 0 {
-					tags = append(tags, "nofields")
-					break
+				for i := range s.Types { // a type OF THE SCHEMA without fields (read from the schema's own list)
+					if s.Types[i].Name == t && len(s.Types[i].Attrs)+len(s.Types[i].Rels) == 0 && !strings.Contains(strings.Join(tags, " "), "nofields") {
+						tags = append(tags, "nofields")
+					}
 				}
 			}
 		}
